@@ -437,6 +437,17 @@ def main(argv):
             scripts.append(("single-aligned-%d" % mult, al[0], True))
             aligned[str(mult)] = al[1]
     modes = ["direct", "tmp-tmpfs", "tmp-disk"]
+    # no fault at all, but explicit flushes at the moment the buffer holds exactly 64 KiB / 1 MiB (and one byte
+    # less or more): only the examination of the run without injection is used
+    for tgt in (65536, 1048576):
+        for d in (-1, 0, 1):
+            ops = script_single("small").rstrip("\n").split("\n")
+            k = len(ops) - 1 - ops[::-1].index("ev OHe now -")
+            ops[k:k] = ["flush", "jumbo OB. now %d 9" % (tgt + d - 24 - 16), "flush"]
+            try:
+                enumerate_points("single-pow2-%d%+d" % (tgt, d), "\n".join(ops) + "\n", "direct" if d else "tmp-tmpfs", True)
+            except NoFaultViolation as nf:
+                chk.report(nf.key, nf.what, nf.info)
     work = []
     exhaustive = {}
     for name, script, inline in scripts:
